@@ -107,6 +107,10 @@ def fits(x, dtype):
     return abs(x.numerator) < 2 ** 40 and x.denominator <= 2 ** 40
 
 
+def sorted_pair(e):
+    return tuple(sorted(e, key=repr))
+
+
 def all_samples(labels, vt):
     dom = domain(vt)
     for vals in itertools.product(dom, repeat=len(labels)):
@@ -453,6 +457,24 @@ def case_view_history(ctx, r, B):
                 ctx.fail('property', site, ('held view of equal vartype' if o == 'hv' and not through_view else 'through a view' if through_view else 'base'),
                          what, repro=repro(f'print({o}.{"to_qubo" if kind == "toqubo" else "to_ising"}())\nassert False, {what!r}\n'))
                 return
+            # (i) entry by entry against the view-read model: to_qubo / to_ising are the reads of the .binary / .spin view
+            icq = 'dict entries vs view reads'
+            if kind == 'toqubo':
+                lin_d = {v: Qd.get((v, v), 0) for v in ref.vars}
+                quad_d = {k_: b_ for k_, b_ in Qd.items() if k_[0] != k_[1]}
+                off_d = qoff
+            else:
+                lin_d, quad_d, off_d = hd, Jd, ioff
+            if set(lin_d) != set(ref.vars) or {frozenset(k_) for k_ in quad_d} != ref.inter or len(quad_d) != len(ref.inter):
+                ctx.fail('property', site, 'keys of the returned dicts', f'linear keys {sorted(map(repr, lin_d))}, interactions {sorted(map(repr, quad_d))}; '
+                         f'the model has variables {ref.vars} and interactions {sorted(map(sorted_pair, ref.inter))}',
+                         repro=repro(f'print({o}.{"to_qubo" if kind == "toqubo" else "to_ising"}())\nassert False\n'))
+                return
+            for v_ in ref.vars:
+                lines.append(f'lb {dom_vt} getlin {lab(v_)}'); expects.append('ok ' + rat(F(lin_d[v_]))); metas.append((site, icq))
+            for (a_, c_), b_ in quad_d.items():
+                lines.append(f'lb {dom_vt} getquad {lab(a_)} {lab(c_)}'); expects.append('ok ' + rat(F(b_))); metas.append((site, icq))
+            lines.append(f'lb {dom_vt} getoff'); expects.append('ok ' + rat(F(off_d))); metas.append((site, icq))
             continue
         err = None
         call = None
@@ -967,6 +989,125 @@ def case_poly_convert(ctx, r, B):
     B.add(f'polyto{other.lower()} {tok}', '', site, ic, 'to_binary/to_spin vs model', detail=dict(script=R.lines[4:]), on_mismatch=same)
 
 
+def terms_tok(items, idx):
+    """`i.j=b;…` with the variables of a term as sorted positions"""
+    return ';'.join('.'.join(str(i) for i in sorted(idx[v] for v in t)) + '=' + rat(F(b)) for t, b in items) or '-'
+
+
+def parse_terms(g):
+    d = {}
+    if g != '-':
+        for e in g.split(';'):
+            k, b = e.split('=')
+            d[tuple(int(x) for x in k.split('.')) if k else ()] = Fraction(b)
+    return d
+
+
+def case_poly_h(ctx, r, B):
+    """BinaryPolynomial.to_hubo / to_hising (either vartype) and from_hubo / from_hising: dicts + offset carry the energies"""
+    R = Recipe()
+    vt = r.choice(['SPIN', 'BINARY'])
+    n = r.choice([1, 2, 3, 4, 5])
+    labels = r.sample(LABELS, n)
+    idx = {l: i for i, l in enumerate(labels)}
+    terms = {}
+    for _ in range(r.choice([1, 2, 3, 5])):
+        t = tuple(r.sample(labels, min(r.choice([0, 1, 1, 2, 2, 3, 4]), n)))
+        if not any(set(t) == set(k) for k in terms):
+            terms[t] = q8(r)
+    which = r.choice(['to_hubo', 'to_hising', 'from_hubo', 'from_hising'])
+    site = 'BinaryPolynomial.' + which
+    ctx.tick(site)
+
+    def ev_terms(d, x):
+        e = Fraction(0)
+        for t, b in d.items():
+            pr = F(b)
+            for v in t:
+                pr *= x[v]
+            e += pr
+        return e
+
+    if which in ('to_hubo', 'to_hising'):
+        R.do(f'p = BinaryPolynomial({terms!r}, {vt!r})')
+        p = R['p']
+        P = GP({tuple(t): b for t, b in p.items()})
+        ic = f'{vt} polynomial, degree {p.degree if len(p) else 0}' + ('; constant term' if () in p else '')
+        ctx.case((site, tuple(R.lines[4:])), nontrivial=bool(len(p)))
+        if which == 'to_hubo':
+            R.do('H, off = p.to_hubo()')
+            H, off = R['H'], R['off']
+            tgt, conv = 'BINARY', (lambda a: a if vt == 'BINARY' else (a + 1) // 2)
+            got = lambda x: F(off) + ev_terms(H, x)  # noqa
+            check = 'F(off) + sum(F(b) * __import__("math").prod(new[v] for v in t) for t, b in H.items())'
+        else:
+            R.do('h, J, off = p.to_hising()')
+            h, J, off = R['h'], R['J'], R['off']
+            tgt, conv = 'SPIN', (lambda a: a if vt == 'SPIN' else 2 * a - 1)
+            got = lambda x: F(off) + sum(F(b) * x[v] for v, b in h.items()) + ev_terms(J, x)  # noqa
+            check = ('F(off) + sum(F(b) * new[v] for v, b in h.items()) + '
+                     'sum(F(b) * __import__("math").prod(new[v] for v in t) for t, b in J.items())')
+        conv_src = 'a' if tgt == vt else ('(a + 1) // 2' if tgt == 'BINARY' else '2 * a - 1')
+        repro = R.script(textwrap.dedent(f'''
+            import itertools
+            labels = {labels!r}
+            for vals in itertools.product({domain(vt)!r}, repeat=len(labels)):
+                old = dict(zip(labels, vals)); new = {{v: {conv_src} for v, a in old.items()}}
+                assert poly_sum(p, old) == {check}, old
+            '''))
+        for old in all_samples(labels, vt):
+            new = {v: conv(a) for v, a in old.items()}
+            if P.eval(old) != got(new):
+                ctx.fail('property', site, ic, f'at {old}: polynomial {P.eval(old)}, returned dicts + offset {got(new)}', repro=repro)
+                return
+        ptok = terms_tok(p.items(), idx)
+        if which == 'to_hubo':
+            exp = ({tuple(sorted(idx[v] for v in t)): F(b) for t, b in H.items()}, F(off))
+            B.add(f'polytohubo {vt} {ptok}', '', site, ic, 'to_hubo vs model', detail=dict(script=R.lines[4:]),
+                  on_mismatch=lambda g, exp=exp: (parse_terms(g.split(' ')[0]), Fraction(g.split(' ')[1])) == exp)
+        else:
+            exp = ({(idx[v],): F(b) for v, b in h.items()}, {tuple(sorted(idx[v] for v in t)): F(b) for t, b in J.items()}, F(off))
+            B.add(f'polytohising {vt} {ptok}', '', site, ic, 'to_hising vs model', detail=dict(script=R.lines[4:]),
+                  on_mismatch=lambda g, exp=exp: (parse_terms(g.split(' ')[0]), parse_terms(g.split(' ')[1]), Fraction(g.split(' ')[2])) == exp)
+        return
+    off = None if r.random() < .3 else q8(r)
+    if which == 'from_hubo':
+        R.do(f'p = BinaryPolynomial.from_hubo({terms!r}' + ('' if off is None else f', {off!r}') + ')')
+        src = dict(terms)
+        dvt = 'BINARY'
+        line = f'polyfromhubo {terms_tok(terms.items(), idx)} {"~" if off is None else rat(F(off))}'
+        ic = ('offset given' if off is not None else 'no offset') + ('; constant term in H' if () in terms else '')
+    else:
+        hh = {t[0]: b for t, b in terms.items() if len(t) == 1}
+        JJ = {t: b for t, b in terms.items() if len(t) >= 2}
+        R.do(f'p = BinaryPolynomial.from_hising({hh!r}, {JJ!r}' + ('' if off is None else f', {off!r}') + ')')
+        src = {**{(v,): b for v, b in hh.items()}, **JJ}
+        dvt = 'SPIN'
+        line = (f'polyfromhising {terms_tok([((v,), b) for v, b in hh.items()], idx)} {terms_tok(JJ.items(), idx)} '
+                f'{"~" if off is None else rat(F(off))}')
+        ic = 'offset given' if off is not None else 'no offset'
+    p = R['p']
+    ctx.case((site, tuple(R.lines[4:])), nontrivial=bool(src))
+    repro = R.script(textwrap.dedent(f'''
+        import itertools, math
+        labels = {labels!r}; src = {src!r}; off = {0 if off is None else off!r}
+        assert p.vartype.name == {dvt!r}
+        for vals in itertools.product({domain(dvt)!r}, repeat=len(labels)):
+            x = dict(zip(labels, vals))
+            assert poly_sum(p, x) == F(off) + sum(F(b) * math.prod(x[v] for v in t) for t, b in src.items()), x
+        '''))
+    if p.vartype.name != dvt:
+        ctx.fail('property', site, ic, f'vartype {p.vartype.name}', repro=repro)
+        return
+    G = GP({tuple(t): b for t, b in p.items()})
+    for x in all_samples(labels, dvt):
+        if G.eval(x) != F(0 if off is None else off) + ev_terms(src, x):
+            ctx.fail('property', site, ic, f'at {x}: polynomial {G.eval(x)}, dicts + offset {F(0 if off is None else off) + ev_terms(src, x)}', repro=repro)
+            return
+    exp = {tuple(sorted(idx[v] for v in t)): F(b) for t, b in p.items()}
+    B.add(line, '', site, ic, which + ' vs model', detail=dict(script=R.lines[4:]), on_mismatch=lambda g, exp=exp: parse_terms(g) == exp)
+
+
 def case_ising_qubo(ctx, r, B):
     n = r.choice([1, 2, 3, 4])
     labels = r.sample(LABELS, n)
@@ -1225,7 +1366,7 @@ def run(ctx):
                 'change_vartype, each compared with substitute-edit-substitute back; a case = one conversion or one history step; '
                 'non-trivial = the model has variables / the step went through a view of the other vartype or changed the state')
     for i in range(n):
-        kind = r.choice(['bqm', 'bqmhist', 'bqmhist', 'hist', 'hist', 'hist', 'qm', 'cqm', 'cqm', 'poly', 'dicts', 'ss', 'ss', 'fromdicts'])
+        kind = r.choice(['bqm', 'bqmhist', 'bqmhist', 'hist', 'hist', 'hist', 'qm', 'cqm', 'cqm', 'poly', 'polyh', 'dicts', 'ss', 'ss', 'fromdicts'])
         ctx.tick('kind:' + kind)
         if kind == 'bqm':
             case_bqm_convert(ctx, r, B)
@@ -1239,6 +1380,8 @@ def run(ctx):
             case_cqm_change(ctx, r, B)
         elif kind == 'poly':
             case_poly_convert(ctx, r, B)
+        elif kind == 'polyh':
+            case_poly_h(ctx, r, B)
         elif kind == 'dicts':
             case_ising_qubo(ctx, r, B)
         elif kind == 'fromdicts':
